@@ -482,8 +482,25 @@ func (es *SearchEngineState) MATCH(value string, not bool, caseless bool) {
 	}
 }
 
+// LOOKUPVARIABLE reads a name where INSERTVARIABLE binds it: in the table of the current iteration of a named loop,
+// the innermost first, and otherwise in the environment
+func (es *SearchEngineState) LOOKUPVARIABLE(name string) (Value, bool) {
+	for i := int(es.loopStack.Size()) - 1; i >= 0; i-- {
+		scope := es.loopStack.Index(i)
+		if scope.name == "" {
+			continue
+		}
+		if iteration, prs := scope.variables.Get(strconv.Itoa(scope.iterationStep)); prs {
+			if value, found := iteration.Hashmap().Get(name); found {
+				return value, true
+			}
+		}
+	}
+	return es.environment.Get(name)
+}
+
 func (es *SearchEngineState) MATCHVAR(name string) {
-	value, found := es.environment.Get(name)
+	value, found := es.LOOKUPVARIABLE(name)
 	if !found {
 		es.BACKTRACK()
 	} else if value.getType() == ValueHashMapType {
